@@ -15,6 +15,7 @@ import (
 func (e *Engine) verifyLemma(lm *Lemma) []*Oblig {
 	name := shortName(lm.Pkg) + ".lemma:" + lm.Name
 	fc := &FuncContract{Pkg: lm.Pkg, Name: "lemma:" + lm.Name, Safety: false, Extra: map[string][]string{}}
+	e.ctx = e.freshCtx()
 	v := &FnV{e: e, c: e.ctx, fc: fc, name: name, boxed: map[types.Object]bool{}, closures: map[string]*closureRec{}, inlining: map[string]bool{}}
 	pkg := e.pkgs[lm.Pkg]
 	v.frames = []*Frame{{pkg: pkg, name: name}}
